@@ -1,20 +1,61 @@
 /-
-  `Serialize for DateTime<Tz>` and `Deserialize for DateTime<FixedOffset>` / `DateTime<Utc>`
-  (src/datetime/serde.rs), composed from models that exist elsewhere — nothing of the writer or the reader is
-  modelled here:
-    writer  = `Format.write_rfc3339` (Model/Format.lean, C12) on `overflowing_naive_local` (Model/DateTime.lean),
-              `SecondsFormat::AutoSi`, `use_z = true`;
-    reader  = `FromStr for DateTime<FixedOffset>` (src/format/parse.rs) = `parse_rfc3339_relaxed`
-              (Model/Parse.lean, C13) followed by `Parsed::to_datetime` (Model/ParsedResolve.lean, C14).
-  Used for the kernel-checked witnesses of the known findings F20/F21/F22 and compared with the crate on
-  every zone-aware value the C20 harness generates.
+  The string forms of serde (`--features serde`): `Serialize` / `Deserialize` of `NaiveDate`
+  (src/naive/date/mod.rs, `mod serde`), `NaiveTime` (src/naive/time/serde.rs), `NaiveDateTime`
+  (src/naive/datetime/serde.rs), `DateTime<Tz>` / `DateTime<FixedOffset>` / `DateTime<Utc>`
+  (src/datetime/serde.rs).  Nothing of a writer or a reader is modelled here — each impl is glue over a
+  function that is modelled (and proved about) elsewhere, and the glue names exactly that function:
+
+    type             `serialize` = `collect_str(..)` of                     `visit_str` = `value.parse()` =
+    NaiveDate        `FormatWrapped` → `Debug`  = `TextForms.date_debug`    `FromStr` = `TextForms.date_from_str`
+    NaiveTime        `&self` → `Display` (forwards to `Debug`)              `FromStr` = `TextForms.time_from_str`
+                                                = `TextForms.time_debug`
+    NaiveDateTime    `FormatWrapped` → `Debug`  = `TextForms.naive_debug`   `FromStr` = `TextForms.naive_from_str`
+    DateTime<Tz>     `FormatIso8601` → `write_rfc3339(overflowing_naive_local, offset.fix(), AutoSi, true)`
+                                                = `Format.write_rfc3339`    `FromStr for DateTime<FixedOffset>`
+                                                                              = `TextForms.fixed_from_str`
+  (Model/TextForms.lean is the model of the default text forms, property C09; Model/Format.lean the
+  formatter, property C12 / C10.)  The zone-aware writer is NOT the `Debug` form and NOT `to_rfc3339()`:
+  it is `write_rfc3339` with `use_z = true` called on the wall clock directly; the zone-aware reader is NOT
+  `parse_from_rfc3339` but the relaxed `FromStr`.
+  A writer answers `Format.W` (`.ok (some text)`, `.ok none` = `Err(fmt::Error)`, `.panic`), `visit_str`
+  answers `Res (SR α)` (`Ok` / `Err(E::custom(..))` / panic).
 -/
 import Chrono.Model.Format
 import Chrono.Model.Parse
 import Chrono.Model.ParsedResolve
+import Chrono.Model.TextForms
 import Chrono.Model.SerdeTs
 namespace Chrono.M.Serde
 open Chrono.M
+
+/-- `value.parse().map_err(E::custom)`: the error kind is dropped -/
+def visitOf {α} (r : Parsed.RP α) : Res (SR α) :=
+  match r with
+  | .ok (.ok a) => .ok (.ok a)
+  | .ok (.error _) => .ok .err
+  | .panic => .panic
+
+namespace NaiveDateStr
+/-- `Serialize for NaiveDate`: `collect_str(&FormatWrapped { inner: &self })`, whose `Display` is the
+date's `Debug` -/
+def serialize (d : Date) : Format.W := TextForms.date_debug d
+/-- `NaiveDateVisitor::visit_str`: `value.parse().map_err(E::custom)` -/
+def visit_str (s : List Nat) : Res (SR Date) := visitOf (TextForms.date_from_str s)
+end NaiveDateStr
+
+namespace NaiveTimeStr
+/-- `Serialize for NaiveTime`: `collect_str(&self)` — `Display`, which forwards to `Debug` -/
+def serialize (t : Time) : Format.W := TextForms.time_debug t
+/-- `NaiveTimeVisitor::visit_str` -/
+def visit_str (s : List Nat) : Res (SR Time) := visitOf (.ok (TextForms.time_from_str s))
+end NaiveTimeStr
+
+namespace NaiveDateTimeStr
+/-- `Serialize for NaiveDateTime`: `collect_str(&FormatWrapped { inner: &self })` → `Debug` -/
+def serialize (dt : NaiveDT) : Format.W := TextForms.naive_debug dt
+/-- `NaiveDateTimeVisitor::visit_str` -/
+def visit_str (s : List Nat) : Res (SR NaiveDT) := visitOf (TextForms.naive_from_str s)
+end NaiveDateTimeStr
 
 namespace DateTimeStr
 
@@ -24,19 +65,9 @@ def serialize (z : Zoned) : Format.W :=
   | .ok naive => Format.write_rfc3339 naive z.off .autoSi true
   | .panic => .panic
 
-/-- `impl FromStr for DateTime<FixedOffset>` -/
-def from_str (s : List Nat) : Parsed.RP Zoned :=
-  match Parse.parse_rfc3339_relaxed Parsed.new s with
-  | .error e => .ok (.error e)
-  | .ok (parsed, rest) =>
-    if Scan.trimStart rest ≠ [] then .ok (.error .tooLong) else Parsed.to_datetime parsed
-
-/-- `DateTimeVisitor::visit_str`: `value.parse().map_err(E::custom)` -/
-def visit_str (s : List Nat) : Res (SR Zoned) :=
-  match from_str s with
-  | .ok (.ok z) => .ok (.ok z)
-  | .ok (.error _) => .ok .err
-  | .panic => .panic
+/-- `DateTimeVisitor::visit_str`: `value.parse().map_err(E::custom)` with
+`impl FromStr for DateTime<FixedOffset>` -/
+def visit_str (s : List Nat) : Res (SR Zoned) := visitOf (TextForms.fixed_from_str s)
 
 /-- `Deserialize for DateTime<FixedOffset>` -/
 def deserialize_fixed (s : List Nat) : Res (SR Zoned) := visit_str s
